@@ -6,16 +6,19 @@ open Common
      irregular     STR count (s e)*         -> 0 (slice panic) | 1 count (s e)*
      offsets       STR                      -> count offsets*            (char boundaries = prefix sums)
      apply         BYTES count (s e BYTES)* -> valid(0/1) OPT(BYTES)      (changes are sorted by (s,e) first)
-     build         TAG args                 -> see below; a change is printed as  s e STR
-        1 curly_attr s e V           -> CHANGE          2 curly_child s e V      -> OPT(CHANGE)
+     build         TAG args                 -> see below; a change is printed as  s e STR   (builders of the repaired tree)
+        1 curly_attr s e V           -> OPT(CHANGE)     2 curly_child s e V      -> OPT(CHANGE)
         3 missing_curly s e EL       -> CHANGE          4 entities s e TEXT      -> reported(0/1) CHANGE
-        5 boolean OPT(prev_end) eq_start expr_end -> CHANGE
-        6 spread s e                 -> OPT(CHANGE)     7 rename s e             -> CHANGE
-        8 process OPT(last_import_end) code_start  -> CHANGE
-        9 node_global NAME OPT(last_import_end) code_start s e -> OPT(CHANGE)
-       10 vms_all kw_end count (a b)* -> count CHANGE*  11 vms_spec start        -> CHANGE
-       12 curly_attr_repaired s e V  -> OPT(CHANGE)     13 spread_repaired prev_end rbrace_end -> CHANGE
-       14 boolean_repaired OPT(prev_end) eq_start expr_end OPT(next char) -> CHANGE
+        5 boolean OPT(prev_end) eq_start expr_end OPT(next char) -> CHANGE
+        6 spread OPT(open: is_lbrace start end) OPT(close: is_rbrace start end) OPT(prev_tok_end) -> OPT(CHANGE)
+        7 rename s e                 -> CHANGE
+        8 process is_cjs OPT(last_import_end) code_start  -> OPT(CHANGE)
+        9 node_global is_cjs NAME OPT(last_import_end) code_start s e -> OPT(OPT(CHANGE))  (outer: name known)
+       10 vms_all kw_end count (OPT(a b))* -> OPT(count CHANGE* )
+       11 vms_spec named_with_ident_name start -> OPT(CHANGE)
+       historic builders (before the fix commits):
+       21 curly_attr_before_fix s e V -> CHANGE         25 boolean_before_fix OPT(prev_end) eq_start expr_end -> CHANGE
+       26 spread_before_fix s e       -> OPT(CHANGE)
      pred          TAG STR                  -> 0/1
         1 jsx_attr_string  2 jsx_text  3 ident  4 import line (leading nl)  5 import line (trailing nl)  6 import line (no nl)
         7 braces balanced                                                                                   *)
@@ -43,27 +46,33 @@ let run_apply () =
   out_bool (FixApply.valid_changes (Utf.len text) sorted);
   out_opt out_str (FixApply.apply_sorted text chs)
 
+let read_tok () = let b = read_bool () in let s = read_n () in let e = read_n () in ((b, s), e)
 let run_build () =
   match next_int () with
-  | 1 -> let s = read_n () in let e = read_n () in let v = read_str () in out_change (FixBuilders.curly_attr_change s e v)
+  | 1 -> let s = read_n () in let e = read_n () in let v = read_str () in out_opt out_change (FixBuilders.curly_attr_change s e v)
   | 2 -> let s = read_n () in let e = read_n () in let v = read_str () in
          out_opt (fun t -> out_change ((s, e), t)) (FixBuilders.curly_child_fix v)
   | 3 -> let s = read_n () in let e = read_n () in let el = read_str () in out_change ((s, e), FixBuilders.missing_curly_fix el)
   | 4 -> let s = read_n () in let e = read_n () in let t = read_str () in
          out_bool (FixBuilders.entities_reported t); out_change ((s, e), FixBuilders.escape t)
-  | 5 -> let p = read_opt read_n in let q = read_n () in let e = read_n () in out_change (FixBuilders.boolean_change p q e)
-  | 6 -> let s = read_n () in let e = read_n () in out_opt out_change (FixBuilders.spread_change s e)
+  | 5 -> let p = read_opt read_n in let q = read_n () in let e = read_n () in let nx = read_opt read_n in
+         out_change (FixBuilders.boolean_change p q e nx)
+  | 6 -> let o = read_opt read_tok in let c = read_opt read_tok in let p = read_opt read_n in
+         out_opt out_change (FixBuilders.spread_change o c p)
   | 7 -> let s = read_n () in let e = read_n () in out_change (FixBuilders.rename_change s e)
-  | 8 -> let l = read_opt read_n in let c = read_n () in out_change (FixBuilders.process_change l c)
-  | 9 -> let name = read_str () in let l = read_opt read_n in let c = read_n () in let s = read_n () in let e = read_n () in
-         out_opt out_change (FixBuilders.node_global_change name l c s e)
-  | 10 -> let k = read_n () in let spans = read_list read_rng in out_list out_change (FixBuilders.vms_all_changes k spans)
-  | 11 -> let s = read_n () in out_change (FixBuilders.vms_spec_change s)
-  | 12 -> let s = read_n () in let e = read_n () in let v = read_str () in
-          out_opt (fun t -> out_change ((s, e), t)) (FixBuilders.curly_attr_fix_repaired v)
-  | 13 -> let p = read_n () in let e = read_n () in out_change (FixBuilders.spread_change_repaired p e)
-  | 14 -> let p = read_opt read_n in let q = read_n () in let e = read_n () in let nx = read_opt read_n in
-          out_change (FixBuilders.boolean_change_repaired p q e nx)
+  | 8 -> let cjs = read_bool () in let l = read_opt read_n in let c = read_n () in
+         out_opt out_change (FixBuilders.process_change cjs l c)
+  | 9 -> let cjs = read_bool () in let name = read_str () in let l = read_opt read_n in let c = read_n () in
+         let s = read_n () in let e = read_n () in
+         out_opt (out_opt out_change) (FixBuilders.node_global_change cjs name l c s e)
+  | 10 -> let k = read_n () in let spans = read_list (fun () -> read_opt read_rng) in
+          out_opt (out_list out_change) (FixBuilders.vms_all_changes k spans)
+  | 11 -> let b = read_bool () in let s = read_n () in out_opt out_change (FixBuilders.vms_spec_change b s)
+  | 21 -> let s = read_n () in let e = read_n () in let v = read_str () in
+          out_change ((s, e), FixBuilders.curly_attr_fix_before_fix v)
+  | 25 -> let p = read_opt read_n in let q = read_n () in let e = read_n () in
+          out_change (FixBuilders.boolean_change_before_fix p q e)
+  | 26 -> let s = read_n () in let e = read_n () in out_opt out_change (FixBuilders.spread_change_before_fix s e)
   | _ -> failwith "build tag"
 
 let run_pred () =
